@@ -151,8 +151,9 @@ def generate(run_seed):
                 continue
             if any(related(lp, l["target"]) for l in links if "link" in l):
                 continue
-            style = rng.choice(["abs", "rel"])
-            ref = {"link": "/" + "/".join(tp) if style == "abs" else rel_path(lp, tp)}
+            style = rng.choice(["abs", "rel", "rel", "rel-dot"])
+            ref = {"link": "/" + "/".join(tp) if style == "abs" else
+                   ("./" if style == "rel-dot" else "") + rel_path(lp, tp)}
         # own children of the linker: make names disjoint from / overlapping with the target's
         tnames_s = [c["name"] for c in tnode["secs"]]
         tnames_p = [c["name"] for c in tnode["props"]]
